@@ -28,9 +28,9 @@ THEOREMS = [
 _NET = "harness/httpserver/zz_verif_c07_net_test.go"
 HARNESSES = [
     dict(name="e2e", pkg="pkg/object/httpserver", files=[_NET, "harness/httpserver/zz_verif_c03_e2e_test.go"],
-         run="TestVerifC03E2E", groups=["e2e", "hist"], timeout=900, share=0.44),
+         run="TestVerifC03E2E", groups=["e2e", "hist"], timeout=900, share=0.4),
     dict(name="unit", pkg="pkg/filters/proxy", files=["harness/proxy/zz_verif_c03_unit_test.go"],
-         run="TestVerifC03Unit", groups=["hop", "addr"], timeout=600, share=0.56),
+         run="TestVerifC03Unit", groups=["hop", "addr"], timeout=600, share=0.6),
 ]
 GROUPS = {"e2e": "(check_e2e_with pinned)", "hist": "(check_hist_with pinned)", "hop": "check_hop", "addr": "check_addr"}
 EXPLAIN = {"e2e": "(explain_e2e_with pinned)", "hist": "(explain_hist_with pinned)", "hop": "explain_hop", "addr": "explain_addr"}
@@ -40,7 +40,8 @@ RULE = ("e2e cases: methods (incl. extension methods) x request-targets with per
         "lists with lower-case / absent / end-to-end-named tokens, Accept-Encoding variants) x bodies 0..3000 bytes (thorough: up to 100 KB) sent with "
         "Content-Length / chunked / gzip-labelled x buffered or stream mode in each direction x IP or host-name server x keepHost x compression "
         "minLength {none,0,1,20,100,1000} with bodies at minLength-1/minLength/minLength+1 x Request/ResponseAdaptor body/compress/decompress x backend "
-        "status x backend headers x response framing (Content-Length, chunked, close-delimited) x gzip-labelled responses and other Content-Encoding shapes (GZIP, x-gzip, `deflate, gzip` as one value or two lines, `gzip, gzip`, identity, "
+        "status x backend headers x response framing (Content-Length, chunked, close-delimited) x pool failureCodes (often naming the backend's status; with and without a 2-attempt retry policy) x gzip-labelled responses, gzip bodies of two / three "
+        "members (one empty; a member followed by garbage) and other Content-Encoding shapes (GZIP, x-gzip, `deflate, gzip` as one value or two lines, `gzip, gzip`, identity, "
         "deflate, br, `br, gzip`, `gzip, br`) x response limits at pool / proxy level ((-1,L) (L,-1) (0,L) (L,0) (-1,0) (0,-1) (L,2L) (2L,L) (-1,-1), bodies at L-1/L/L+1/3L) (negative values -1, -2, -1024, MinInt64+1 at client, pool and proxy level: any negative streams) x a mirrorPool on a second backend matching X-Mirror "
         "(1 case in 6) x uploads the client "
         "cuts off (announced length not reached, chunked without last-chunk; buffered and stream mode) x load-balance policy (none, roundRobin, random, weightedRandom with/without weights, ipHash, headerHash; one or two "
@@ -204,6 +205,7 @@ def _encode_e2e(c, pool=None):
     proxy_max = i.get("proxyMax") or (-1 if (i["sstream"] and not pool_max) else 0)
     cfg = Rec(p_cstream=B(i["cstream"]), p_pool_max=Z(pool_max), p_proxy_max=Z(proxy_max), p_server_host=S(server_host),
               p_host_is_name=B(orc["hostIsName"]), p_keep_host=B(i["keepHost"]),
+              p_fail_codes=L([Z(x) for x in (i.get("failCodes") or [])]),
               p_minlen=Opt(Z(i["minLen"])) if i["minLen"] >= 0 else "None",
               p_ra=_adapt(i["ra"], S), p_rs=_adapt(i["rs"], S))
     parse = []
@@ -225,6 +227,7 @@ def _encode_e2e(c, pool=None):
     return wrap(Rec(
         e_cfg=cfg, e_method=S(i["method"]), e_target=S(i["target"]), e_host=S(i["host"]),
         e_hdrs=_pairs(i["headers"], S), e_body=S(_b(i["reqBody"])), e_cut=B(i.get("cut") and i["reqEnc"] != "none"),
+        e_retry=B(i.get("retry")),
         e_resp_status=Z(i["respStatus"]), e_resp_hdrs=_pairs(i["respHeaders"], S),
         e_resp_enc=_enc(i["respEnc"], len(_b(i["respBody"]))), e_resp_body=S(_b(i["respBody"])),
         e_gzip=L([T(S(_b(a)), S(_b(b))) for a, b in (orc["gzip"] or [])]),
